@@ -183,6 +183,12 @@ CHAINED = [
     ("st = [5, 6, 7]", "st[st.pop() - 7] += st.pop()", ["st"]),
     ("st = [[1], [2]]", "st[-1] = st.pop(0)", ["st"]),
     ("st = [1, 2, 3]", "st[0], st[len(st) - 1] = st.pop(), st.pop()", ["st"]),
+    # augmented store: the current item is loaded BEFORE the right-hand side runs
+    ("st = [1, 2, 3]", "st[-1] += st.pop()", ["st"]),
+    ("st = [1, 2, 3]\nd2 = {'n': 1}", "d2['n'] -= d2.pop('n') + len(st)\nst[0] *= st.pop(0) + st.pop(0)", ["st", "d2"]),
+    ("st = [4, 5]", "o.a1 = 10\no.a1 -= [setattr(o, 'a1', 100), 1][1]", ["st"]),
+    ("class Acct:\n    def __init__(self):\n        self.balance = 10\n    def fee(self):\n        self.balance = 100\n        return 1\nac = Acct()", "ac.balance -= ac.fee()\nL('bal', ac.balance)", []),
+    ("st = [[1], [2]]", "st[0] += st.pop()", ["st"]),
     ("pass", "t[0, 1:3] += 2\nt[..., 1:] = 5\nt[1:2, 0] *= 3\nt[::2,] = 7", []),
 ]
 
